@@ -19,6 +19,7 @@ what the real interpreter returned):
            checked by the scalar oracle as well); unequal lengths must raise.
 """
 import math
+import re
 import struct
 from fractions import Fraction
 from .. import core
@@ -535,7 +536,11 @@ def bad_outcome(sh, ev, text):
     if o == "ok":
         return False
     if o == "panic":
-        sh.inconc("panic", text[:200])
+        # every operator / conversion of the property is promised a value (or, for a zero divisor, inf/NaN) or an
+        # ordinary error on every pair of numbers: an internal panic is neither
+        pm = (ev.get("panic") or {}).get("msg", "")
+        viol(sh, "C07|panic|%s" % re.sub(r"[0-9]+", "N", pm)[:60], "%s panicked inside the interpreter: %s" % (text[:200], pm[:120]),
+             {"job": {"kind": "eval", "stmts": [text]}, "expected": "a value or an ordinary error"})
     elif o == "crash":
         sh.inconc("crash:" + str(ev.get("why", "")), text[:200])
     else:
